@@ -192,7 +192,7 @@ func runC02(c *Ctx) {
 		// init resets progress; entry points pass 0 (and the right all-flag)
 		{
 			zero := false
-			for _, a := range storesTo(initM, progF) {
+			for _, a := range storesDeep(initM, progF) {
 				if isConstInt(a.Val, 0) {
 					zero = true
 				}
